@@ -24,7 +24,7 @@ def pipeline_jobs(ctx, n):
         # the same interfaces with a fixed LCG seed and a known final shuffle: their output is then a function of the inputs,
         # compared element by element with the generated composition model (GenPipeline)
         for iface in iterlib.ifaces_for(spec):
-            if iface not in ("sync", "async", "concurrent"):
+            if iface not in ("sync", "async", "concurrent", "rust"):
                 continue
             for _k in range(2 if ctx.quick else 4):
                 sh = rng.choice([0, 1, 2, 3, 7, 50])
@@ -59,6 +59,8 @@ def composition_check(PID, jobs, res):
                 t = f"ani nat N (rd {tab}) pr {pk} (@rev nat) {pk} (@rev N) {q['shuffle']} {hp} {paths}"
             elif q["iface"] == "concurrent":
                 t = f"anc nat N (rd {tab}) pr {pk} (@rev nat) {pk} (fun l => l) {q['shuffle']} {q['file_parallelism']} {hp} {paths}"
+            elif q["iface"] == "rust":
+                t = f"anr nat N (rd {tab}) pr {pk} (@rev nat) {q['shuffle']} {hp} {paths}"
             else:
                 t = f"ana nat N (rd {tab}) pr {pk} (@rev nat) {pk} {q['shuffle']} {q['file_parallelism']} {hp} {paths}"
             lines.append(f"Eval vm_compute in {t}.")
